@@ -2,6 +2,7 @@ package net
 
 import (
 	vp "github.com/Tnze/go-mc/internal/zzvp"
+	"github.com/Tnze/go-mc/net/CFB8"
 	pk "github.com/Tnze/go-mc/net/packet"
 )
 
@@ -37,5 +38,35 @@ func VP_C10_conn_large() {
 	vp.Assert(q.ID == p1.ID && string(q.Data) == string(p1.Data), "first packet intact")
 	vp.Assert(b.ReadPacket(&q) == nil, "ReadPacket 2")
 	vp.Assert(q.ID == p2.ID && string(q.Data) == string(p2.Data), "second packet intact and in order")
+	vp.Cover("end")
+}
+
+// the cipher is enabled after packets were already exchanged (as the login
+// sequence does): the sender writes a plain packet, enables encryption and
+// writes on; everything is already in the transport when the receiver reads the
+// plain packet, enables its cipher and reads the rest. Nothing is lost.
+func VP_C10_conn_late_cipher() {
+	vpSetupNative()
+	vp.SizeBound(64)
+	vp.PoolMode(1)
+	t := vpConnThreshold()
+	pa, pb := vpPipe()
+	pa.chunk, pb.chunk = 0, []int{0, 1}[vp.Choice(2)]
+	a, b := WrapConn(pa), WrapConn(pb)
+	a.SetThreshold(t)
+	b.SetThreshold(t)
+	iv := vp.Bytes(16)
+	p1 := pk.Packet{ID: vpSmallID(), Data: vp.Bytes(vp.Choice(3))}
+	p2 := pk.Packet{ID: vpSmallID(), Data: vp.Bytes(1 + vp.Choice(3))}
+	p3 := pk.Packet{ID: vpSmallID(), Data: vp.Bytes(vp.Choice(2))}
+	vp.Assert(a.WritePacket(p1) == nil, "WritePacket 1 (plain)")
+	a.SetCipher(CFB8.NewCFB8Encrypt(vpBlock{}, iv), CFB8.NewCFB8Decrypt(vpBlock{}, iv))
+	vp.Assert(a.WritePacket(p2) == nil && a.WritePacket(p3) == nil, "WritePacket 2, 3 (encrypted)")
+	var q pk.Packet
+	vp.Assert(b.ReadPacket(&q) == nil && q.ID == p1.ID && string(q.Data) == string(p1.Data), "first packet intact")
+	b.SetCipher(CFB8.NewCFB8Encrypt(vpBlock{}, iv), CFB8.NewCFB8Decrypt(vpBlock{}, iv))
+	vp.Assert(b.ReadPacket(&q) == nil, "ReadPacket 2")
+	vp.Assert(q.ID == p2.ID && string(q.Data) == string(p2.Data), "second packet intact and in order")
+	vp.Assert(b.ReadPacket(&q) == nil && q.ID == p3.ID && string(q.Data) == string(p3.Data), "third packet intact and in order")
 	vp.Cover("end")
 }
